@@ -374,6 +374,19 @@ func runC19(c *core.Ctx, o Options) {
 		c.Check(okDrain && callsServe && len(loops(drain)) == 1, "H4", "DefaultHandler.processRemainingIncoming", "takes messages from the queue until it is empty and dispatches each", drain.Pos(), "for { select { case msg := <-incoming: serve(msg); default: return } }", "the drain does not empty the incoming queue through serve")
 	}
 	c.Explanation += " H2 also covers utils.EventHandlerPool: every update of its map appends one subscriber at the end of the event's list (directly or through a helper that returns an ordered copy plus one), and Trigger walks front to back and stops at the first false."
+	// H1 (premises): what was enqueued is not rewritten by a later serialization of the same object, and the session hands
+	// messages to the handler only through Send/SendBatch (never serialized by itself and pushed with SendRaw)
+	checkImageFresh(c, "H1")
+	if s2 := newSess(c); s2 != nil {
+		for _, fn := range s2.allFuncs() {
+			an.AllInstrs(fn, func(in ssa.Instruction) {
+				if cc := an.CallOf(in); cc != nil && cc.IsInvoke() && an.TypeIs(cc.Value.Type(), "session", "Handler") && cc.Method.Name() == "SendRaw" {
+					c.Ob("H1", an.NameOf(fn), "calls Router.SendRaw", in.Pos()).Fail("package session pushes raw bytes with SendRaw in %s: the message bypasses the outgoing handlers (store, refusals)", an.NameOf(fn))
+				}
+			})
+		}
+	}
+	c.Explanation += " H1 premises: the wire image is built in fresh memory (what was enqueued is not rewritten by a later serialization of the same object), and package session never calls Router.SendRaw."
 	c.RuleMin = map[string]int{"H1": 6, "H2": 10, "H3": 3, "H4": 3}
 	c.MinObl = 20
 }
@@ -853,7 +866,6 @@ func findRangeCallNoArgs(fn *ssa.Function) *rangeCall {
 	})
 	return out
 }
-
 
 // flowsStraightTo: control goes from b to head without a choice and without calling anything (b is head, or the increment
 // block of a counted loop in front of it).
